@@ -26,9 +26,10 @@ vars == <<s, g, bad, n>>
 InitState(cfg, faults) ==
   [cfg |-> cfg, now |-> 0, k |-> <<>>,
    ws |-> [i \in 1..Len(cfg.ws) |->
-            [st |-> "stopped", np |-> cfg.ws[i].np, pr |-> <<>>, sing |-> cfg.ws[i].sing, resp |-> cfg.ws[i].resp,
+            [st |-> "stopped", rel |-> FALSE, np |-> cfg.ws[i].np, pr |-> <<>>, sing |-> cfg.ws[i].sing, resp |-> cfg.ws[i].resp,
              od |-> FALSE, G |-> cfg.ws[i].G, W |-> cfg.ws[i].W, ssig |-> cfg.ws[i].ssig, sch |-> cfg.ws[i].sch,
              hup |-> cfg.ws[i].hup]],
+   wl |-> [i \in 1..Len(cfg.ws) |-> i], wn |-> <<>>,
    fr |-> [f \in FrameIds |-> NoFrame], cur |-> <<>>, rq |-> <<>>, tm |-> {}, pnext |-> -1, pdue |-> 0,
    slot |-> "", stopping |-> FALSE, restarting |-> FALSE, exited |-> FALSE, creq |-> QuitReq,
    faults |-> faults, blocked |-> 0, out |-> NoLine, lastobs |-> <<>>, cbpend |-> FALSE, pjit |-> FALSE, nreq |-> 0,
@@ -37,10 +38,10 @@ InitState(cfg, faults) ==
 \* ---- projection to the observable state / line format of Monitors.tla (times in ms)
 MObs(st) ==
   [slot |-> st.slot, stopping |-> st.stopping, restarting |-> st.restarting,
-   wl |-> [i \in 1..NW(st) |-> WN(st, i)], wll |-> [i \in 1..NW(st) |-> WN(st, i)],
-   wn |-> IF st.booted THEN [i \in 1..NW(st) |-> WN(st, i)] ELSE <<>>,
-   w |-> [i \in 1..NW(st) |->
-            [n |-> WN(st, i), ln |-> WN(st, i), st |-> st.ws[i].st, np |-> st.ws[i].np, sing |-> st.ws[i].sing,
+   wl |-> [j \in 1..Len(st.wl) |-> WN(st, st.wl[j])], wll |-> [j \in 1..Len(st.wl) |-> WL(st, st.wl[j])],
+   wn |-> [j \in 1..Len(st.wn) |-> st.wn[j].k],
+   w |-> [jj \in 1..Len(DirSeq(st)) |-> LET i == DirSeq(st)[jj] IN
+            [n |-> WN(st, i), ln |-> WL(st, i), st |-> st.ws[i].st, np |-> st.ws[i].np, sing |-> st.ws[i].sing,
              resp |-> st.ws[i].resp, G |-> st.ws[i].G * 100, W |-> st.ws[i].W * 100, ssig |-> st.ws[i].ssig,
              sch |-> st.ws[i].sch, od |-> st.ws[i].od, mage |-> 0, hup |-> st.ws[i].hup,
              pr |-> [j \in 1..Len(st.ws[i].pr) |->
@@ -50,7 +51,7 @@ MObs(st) ==
 
 MCfg(cfg) == [cd |-> cfg.cd * 100, wg |-> cfg.wg * 100,
               ws |-> [i \in 1..Len(cfg.ws) |->
-                        [n |-> cfg.ws[i].n, np |-> cfg.ws[i].np, G |-> cfg.ws[i].G * 100, W |-> cfg.ws[i].W * 100,
+                        [n |-> cfg.ws[i].ln, np |-> cfg.ws[i].np, G |-> cfg.ws[i].G * 100, W |-> cfg.ws[i].W * 100,
                          sing |-> cfg.ws[i].sing, resp |-> cfg.ws[i].resp, auto |-> cfg.ws[i].auto,
                          prio |-> cfg.ws[i].prio, ssig |-> cfg.ws[i].ssig, sch |-> cfg.ws[i].sch, mage |-> 0,
                          hup |-> cfg.ws[i].hup, od |-> FALSE, hooks |-> cfg.ws[i].hooks]]]
@@ -66,11 +67,12 @@ MLine(before, after) ==
 
 \* what the read-only requests would answer in state st (commands/list.py, numprocesses.py, status.py, stats.py)
 ProbeOf(st) ==
-  [wl |-> [i \in 1..NW(st) |-> WN(st, i)], nw |-> NW(st), stn |-> [i \in 1..NW(st) |-> WN(st, i)],
-   stats |-> [i \in 1..NW(st) |-> WN(st, i)],
-   per |-> [i \in 1..NW(st) |->
+  LET names == [j \in 1..Len(st.wn) |-> st.wn[j].k]            \* `list` answers the dict's keys
+      lst == [j \in 1..Len(st.wl) |-> WL(st, st.wl[j])] IN      \* status / stats iterate the list
+  [wl |-> names, nw |-> Len(st.wl), stn |-> lst, stats |-> lst,
+   per |-> [j \in 1..Len(st.wn) |-> LET i == st.wn[j].i IN
               LET act == SelectSeq(PidSeq(st.ws[i]), LAMBDA p : st.k[p].st = "run") IN
-              [n |-> WN(st, i), pids |-> act, np |-> Len(st.ws[i].pr), st |-> st.ws[i].st,
+              [n |-> st.wn[j].k, pids |-> act, np |-> Len(st.ws[i].pr), st |-> st.ws[i].st,
                stats |-> PidSeq(st.ws[i])]]]
 
 Init == /\ \E cfg \in Configs, fs \in FaultSeqs : s = WithObs(InitState(cfg, fs))
@@ -171,6 +173,7 @@ AnyBad == { e \in bad : e[2] = "" } = {}
 Alias == [out |-> <<s.out.k, s.out.w, s.out.p, s.out.a, s.out.r, s.out.x>>, bad |-> bad, now |-> s.now,
           slot |-> s.slot,
           ws |-> [i \in 1..NW(s) |-> <<s.ws[i].st, s.ws[i].np, [j \in 1..Len(s.ws[i].pr) |-> s.ws[i].pr[j].p]>>],
+          dir |-> <<s.wl, [j \in 1..Len(s.wn) |-> s.wn[j].k]>>,
           k |-> [p \in 1..NP(s) |-> <<s.k[p].st, s.k[p].dying, s.k[p].stp>>],
           cur |-> [j \in 1..Len(s.cur) |-> <<s.fr[s.cur[j]].fn, s.fr[s.cur[j]].pc>>],
           rq |-> [j \in 1..Len(s.rq) |-> <<s.rq[j].kind, s.rq[j].f>>],
